@@ -106,6 +106,15 @@ class Obj:
         self.cls, self.vars = cls, vars
 
 
+class Some:
+    """Primitive::Optional(Some(v)) - the wrapper some built-ins put around a present result (the VM only; in the language a
+    present optional IS its value)"""
+    __slots__ = ("v",)
+
+    def __init__(self, v):
+        self.v = v
+
+
 class MapRef:
     """a map with CONCRETE keys (python ints / ("str", s)) and arbitrary values; shared by reference"""
     __slots__ = ("items",)
@@ -497,6 +506,8 @@ def freeze(v):
         return freeze(v.cell.v)
     if isinstance(v, MapPtr):
         return freeze(v.map.items.get(v.key, NIL))
+    if isinstance(v, Some):
+        return freeze(v.v)
     if isinstance(v, MapRef):
         raise Unsupported("printing a whole map (iteration order is unspecified)")
     if isinstance(v, Obj):
